@@ -32,7 +32,7 @@ RULES = {
     "R6": "triples: choice(C, min(C, max_combos), replace=False), C = comb(n, 3, exact=True); unranked with (n, 3)",
     "R7": "rng threaded from wrappers/scorer to the kernel",
 }
-MIN = {"R1": 1, "R2": 7, "R3": 1, "R4": 2, "R5": 3, "R6": 3, "R7": 3}
+MIN = {"R1": 1, "R2": 7, "R3": 2, "R4": 2, "R5": 3, "R6": 3, "R7": 3}
 TRUSTED = ["distance matrix is symmetric (C07.R3)", "scipy logsumexp(axis=1) reduces the triple axis only", "numpy broadcasting"]
 TECHNIQUE = "polynomial normal form with permutation (S3) symmetry lint; def-use checks of the padding protocol; axis-role lint"
 LEVEL_TEXT = ("Invariance under relabelling of the posterior samples, independence from co-scored plates (axis isolation + "
@@ -45,6 +45,7 @@ LEVEL_NOTE = ("Structural part only. Trusted: symmetric distance matrix, logsume
 GD = "scoring.gaussian_dbal"
 KERNEL = f"{GD}.dbal_fast_gauss_scoring_vectorized"
 IDX = ["idx1", "idx2", "idx3"]
+WRAPPERS = ("dbal_fast_gaussian_scoring_heteroscedastic", "dbal_fast_gaussian_scoring_homoscedastic")
 
 
 def kernel_atomizer(varnames):
@@ -132,6 +133,10 @@ def r2(ctx):
         f = ctx.fn(q)
         pcs = pad_calls(f)
         kc = [c for c in calls(f.node) if U(c.func) == KERNEL.split(".")[-1]]
+        wr = [c for c in calls(f.node) if U(c.func) in WRAPPERS]
+        if not kc and len(wr) == 1 and q.endswith("GaussianDBALScorer.score"):
+            ctx.ok("R2", f"{f.site()}::padding", f"delegates padding and the kernel call to {U(wr[0].func)} (checked as its own producer)")
+            continue
         ctx.need(len(kc) == 1 and len(pcs) == 2, f"{f.site()}: expected two padding calls and one kernel call")
         kw = kwargs(kc[0])
         env = single_defs(f.node)
@@ -206,20 +211,43 @@ def r2(ctx):
 def r3(ctx):
     f = ctx.fn(f"{GD}.pad_ragged_arrays_to_dense_array")
     arrs, padv = f.params[0], f.params[1]
-    lp = [n for n in walk_own(f.node) if isinstance(n, ast.For) and isinstance(n.iter, ast.Call) and call_name(n.iter) == "enumerate" and U(n.iter.args[0]) == arrs]
-    ok = False
-    if len(lp) == 1 and len(lp[0].body) == 1 and isinstance(lp[0].body[0], ast.Assign):
-        i, a = [U(t) for t in lp[0].target.elts]
-        st = lp[0].body[0]
-        ok = U(st.targets[0]).replace(" ", "") == f"result[{i},:{a}.shape[0],:{a}.shape[1]]" and U(st.value) == a
     env = single_defs(f.node)
-    init = [n for n in walk_own(f.node) if isinstance(n, ast.Assign) and U(n.targets[0]) == "result"]
     N = Norm(strict=False)
-    ok_init = len(init) == 1 and N.key(inline(init[0].value, env)) in (
-        N.key(parse_expr(f"{padv} * np.ones((len({arrs}), *np.max([np.array(array.shape) for array in {arrs}], axis=0)), dtype={arrs}[0].dtype)")),
-        N.key(parse_expr(f"np.full((len({arrs}), *np.max([np.array(array.shape) for array in {arrs}], axis=0)), {padv}, dtype={arrs}[0].dtype)")))
-    ctx.check("R3", f"{f.site()}::ragged-copy", ok and ok_init, "result = pad * ones((n, *max shape)); result[i, :a.shape[0], :a.shape[1]] = a",
-              "array i is not copied into the leading block of slot i with axes in order over a pad-filled (n, max0, max1) array")
+    loops = [n for n in walk_own(f.node) if isinstance(n, ast.For)]
+    store = None
+    for lp in loops:
+        st = [n for n in lp.body if isinstance(n, ast.Assign) and isinstance(n.targets[0], ast.Subscript)]
+        if len(st) != 1:
+            continue
+        lenv = {n.targets[0].id: n.value for n in lp.body if isinstance(n, ast.Assign) and isinstance(n.targets[0], ast.Name)}
+        i = a = None
+        it = inline(lp.iter, env)
+        if isinstance(it, ast.Call) and call_name(it) == "enumerate" and U(it.args[0]) == arrs and isinstance(lp.target, ast.Tuple) and len(it.args) == 1 and not it.keywords:
+            i, a = U(lp.target.elts[0]), lp.target.elts[1]
+        elif isinstance(it, ast.Call) and call_name(it) == "range" and len(it.args) == 1 and U(it.args[0]) == f"len({arrs})" and isinstance(lp.target, ast.Name):
+            i = lp.target.id
+            a = ast.parse(f"{arrs}[{i}]", mode="eval").body
+        if i is None:
+            continue
+        tgt = inline(st[0].targets[0], lenv)
+        val = inline(st[0].value, lenv)
+        store = (lp, i, a, tgt, val)
+    if store is None:
+        raise AnalysisError(f"{f.site()}: the per-array copy loop is not in a recognised form (enumerate / range(len(...)) with one subscript store)")
+    lp, i, a, tgt, val = store
+    at = U(a)
+    want = N.key(parse_expr(f"{U(tgt.value)}[{i}, :{at}.shape[0], :{at}.shape[1]]"))
+    same_val = N.key(val) == N.key(a)
+    ctx.check("R3", f"{f.site()}::ragged-copy", N.key(tgt) == want and same_val,
+              f"array i goes into slot i, leading block [:shape[0], :shape[1]], axes in order",
+              f"array i is stored as `{U(tgt)} = {U(val)}`: it must be copied unchanged into the leading block of slot i with axes in order")
+    res = U(tgt.value)
+    init = [n for n in walk_own(f.node) if isinstance(n, ast.Assign) and U(n.targets[0]) == res]
+    ie = U(inline(init[0].value, env)).replace(" ", "") if len(init) == 1 else ""
+    recognised = ("np.ones(" in ie or "np.full(" in ie) and padv in ie and f"len({arrs})" in ie and "shape" in ie and "axis=0" in ie and ("max" in ie)
+    if not recognised:
+        raise AnalysisError(f"{f.site()}: the pad-filled background `{ie[:80]}` is not in a recognised form")
+    ctx.ok("R3", f"{f.site()}::background", "background = pad value over (n arrays, maximum shape)")
 
 
 def r4(ctx):
@@ -260,22 +288,33 @@ def r5(ctx):
     plates, dm, samples, rng = f.params[1:5]
     lp = [n for n in walk_own(f.node) if isinstance(n, ast.For) and U(n.target) == "plate_subgroup"]
     if len(lp) != 1:
-        lp = [n for n in walk_own(f.node) if isinstance(n, ast.For) and any(U(c.func) == KERNEL.split(".")[-1] for c in calls(n))]
+        lp = [n for n in walk_own(f.node) if isinstance(n, ast.For) and any(U(c.func) == KERNEL.split(".")[-1] or U(c.func) in WRAPPERS for c in calls(n))]
     ctx.need(len(lp) == 1, f"{f.site()}: per-subgroup loop not found")
     loop = lp[0]
     sg = U(loop.target)
     lenv = {n.targets[0].id: n.value for n in loop.body if isinstance(n, ast.Assign) and isinstance(n.targets[0], ast.Name)}
     kc = [c for c in calls(loop) if U(c.func) == KERNEL.split(".")[-1]]
+    via_wrapper = False
+    if not kc:
+        kc = [c for c in calls(loop) if U(c.func) in WRAPPERS]
+        via_wrapper = True
     ctx.need(len(kc) == 1, f"{f.site()}: kernel call not found")
-    kw = kwargs(kc[0])
+    kw = dict(kwargs(kc[0]))
+    if via_wrapper:
+        kw["predictions"] = kw.get("per_plate_predictions", kc[0].args[0] if kc[0].args else None)
     cur = [k for k, v in lenv.items() if U(v).replace(" ", "") == f"[{plates}[k]forkin{sg}]"]
     ok_sel = len(cur) == 1
     ctx.check("R5", f"{f.site()}::inputs-selected-by-subgroup-ids", ok_sel, f"current plates = [plates[k] for k in {sg}] (ids select inputs, in order)",
               "the plates handed to the kernel are not selected by the subgroup's ids in order")
     if ok_sel:
         cp = cur[0]
-        means = inline(inline(kw.get("predictions"), lenv, depth=1).args[0] if isinstance(inline(kw.get("predictions"), lenv, depth=1), ast.Call) else kw.get("predictions"), lenv, depth=1)
-        varis = inline(inline(kw.get("variances"), lenv, depth=1).args[0] if isinstance(inline(kw.get("variances"), lenv, depth=1), ast.Call) else kw.get("variances"), lenv, depth=1)
+        def unpad(e):
+            e1 = inline(e, lenv, depth=1)
+            if isinstance(e1, ast.Call) and U(e1.func) == "pad_ragged_arrays_to_dense_array":
+                return inline(e1.args[0], lenv, depth=1)
+            return e1
+        means = unpad(kw.get("predictions"))
+        varis = unpad(kw.get("variances"))
         want_m = f"[predict_mean_all(screen=plate,thetas={samples})forplatein{cp}]"
         want_v = f"[predict_variance_all(screen=plate,thetas={samples})forplatein{cp}]"
         ok = U(means).replace(" ", "") == want_m and U(varis).replace(" ", "") == want_v
@@ -284,6 +323,11 @@ def r5(ctx):
     upd = [c for c in calls(loop, tail="update") if c.args and isinstance(c.args[0], ast.Call) and call_name(c.args[0]) == "dict"]
     vals = [k for k, v in lenv.items() if v is kc[0]]
     ok = len(upd) == 1 and vals and U(upd[0].args[0]).replace(" ", "") == f"dict(zip({sg},{vals[0]}))"
+    if not ok and vals:
+        for zl in [n for n in walk_own(loop) if isinstance(n, ast.For) and isinstance(n.iter, ast.Call) and call_name(n.iter) == "zip"]:
+            if [U(a) for a in zl.iter.args] == [sg, vals[0]] and isinstance(zl.target, ast.Tuple) and len(zl.body) == 1 and isinstance(zl.body[0], ast.Assign) \
+                    and isinstance(zl.body[0].targets[0], ast.Subscript) and U(zl.body[0].targets[0].slice) == U(zl.target.elts[0]) and U(zl.body[0].value) == U(zl.target.elts[1]):
+                ok = True
     ctx.check("R5", f"{f.site()}::ids-zipped-with-outputs", ok, f"result.update(dict(zip({sg}, kernel output))): same ids, same order",
               f"the kernel's outputs are keyed by `{U(upd[0].args[0]) if upd else None}`, not by the ids that selected its inputs")
     # sub-grouping covers all ids once: array_split of the full key list
@@ -331,7 +375,7 @@ def r6(ctx):
 def r7(ctx):
     for q in (f"{GD}.dbal_fast_gaussian_scoring_heteroscedastic", f"{GD}.dbal_fast_gaussian_scoring_homoscedastic", f"{GD}.GaussianDBALScorer.score"):
         f = ctx.fn(q)
-        kc = [c for c in calls(f.node) if U(c.func) == KERNEL.split(".")[-1]]
+        kc = [c for c in calls(f.node) if U(c.func) == KERNEL.split(".")[-1]] or [c for c in calls(f.node) if U(c.func) in WRAPPERS]
         ctx.need(len(kc) == 1, f"{f.site()}: kernel call not found")
         ctx.check("R7", f"{f.site()}::rng", U(kwargs(kc[0]).get("rng")) == "rng" and "rng" in f.params, "passes its own rng parameter to the kernel",
                   f"kernel is called with rng={U(kwargs(kc[0]).get('rng'))}")
